@@ -49,6 +49,10 @@ type PointInfo struct {
 	Where  string
 	Reads  []string
 	Writes []string
+	// accesses through sync/atomic functions: each is an acquire of the variable's own clock, a write also a release —
+	// atomic accesses are ordered among themselves and race only with plain accesses
+	AtomicReads  []string
+	AtomicWrites []string
 }
 
 // Points is set by the driver before Run; without it only the shim's own hazards are detected.
@@ -223,8 +227,30 @@ func (r *run) access(t, id int) {
 		return
 	}
 	info, ok := Points[id]
-	if !ok || (len(info.Reads) == 0 && len(info.Writes) == 0) {
+	if !ok || (len(info.Reads) == 0 && len(info.Writes) == 0 && len(info.AtomicReads) == 0 && len(info.AtomicWrites) == 0) {
 		return
+	}
+	// atomic accesses first acquire the variable's clock (every earlier atomic write released into it)
+	for _, v := range append(append([]string{}, info.AtomicReads...), info.AtomicWrites...) {
+		l := r.locks["atomic:"+v]
+		if l != nil {
+			join(&r.vc[t], l.w)
+		}
+	}
+	defer func() {
+		for _, v := range info.AtomicWrites {
+			l := r.locks["atomic:"+v]
+			if l == nil {
+				l = &lockClock{}
+				r.locks["atomic:"+v] = l
+			}
+			join(&l.w, r.vc[t])
+			r.vc[t][t]++
+		}
+	}()
+	if len(info.AtomicReads) > 0 || len(info.AtomicWrites) > 0 {
+		info.Reads = append(append([]string{}, info.Reads...), info.AtomicReads...)
+		info.Writes = append(append([]string{}, info.Writes...), info.AtomicWrites...)
 	}
 	me := r.vc[t]
 	state := func(v string) *varState {
